@@ -269,11 +269,14 @@ async fn current_manifest_path(
     let manifest_files = object_store.list(Some(base.child(VERSIONS_DIR)));
 
     let mut valid_manifests = manifest_files.try_filter_map(|res| {
-        if let Some(scheme) = ManifestNamingScheme::detect_scheme(res.location.filename().unwrap())
-        {
-            future::ready(Ok(Some((scheme, res))))
-        } else {
-            future::ready(Ok(None))
+        let filename = res.location.filename().unwrap();
+        match ManifestNamingScheme::detect_scheme(filename) {
+            // Detached manifests have no (attached) version number in their name
+            // and are never the latest version, skip them like the local path does.
+            Some(scheme) if scheme.parse_version(filename).is_some() => {
+                future::ready(Ok(Some((scheme, res))))
+            }
+            _ => future::ready(Ok(None)),
         }
     });
 
